@@ -21,6 +21,8 @@ import (
 	"strings"
 	"sync"
 	"time"
+
+	"golang.org/x/mod/module"
 )
 
 type clPend struct {
@@ -281,7 +283,8 @@ func clParLookups(out *clOutcome, arg string) bool {
 		if !ok {
 			return false
 		}
-		jobs = append(jobs, &clLookup{c: c, g: "g" + itoa(i), key: item[dot+1:], path: path, vers: vers})
+		jobs = append(jobs, &clLookup{c: c, g: "g" + itoa(i), key: item[dot+1:], path: path, vers: vers,
+			private: module.MatchPrefixPatterns(out.nosumdbOf[c], path)})
 	}
 	if len(jobs) == 0 || len(jobs) > 64 {
 		return false
